@@ -1,5 +1,6 @@
 import Drivers.Wire
 import Model.Files
+import Model.FilesText
 
 /-!
 Driver for C15.
@@ -10,7 +11,10 @@ Driver for C15.
   → the system calls of `searchFiles` (file names rendered the way the code builds them), whether
   each call succeeds in the model, the final directory, and the visible property at every prefix.
 * `{"op":"check","text":<bytes of results.csv as a string | null>,"sid":n,"done":[[sid,id]…],
-  "dumped":[…]}` → the bytes parsed into lines, `wellFormedPrefix`, and the loader model.
+  "dumped":[…],"expect":[{"id":n,"cells":[[column,text]…]}…],"want_records":b}` → the bytes read by the
+  `csv.reader` model and abstracted into lines (`abstract`), `wellFormedPrefix`, the loader model, the
+  cell check (`cellsOk`, `bytesOk`), whether the writer model renders the records read back to the
+  same bytes, and (on request) the records themselves.
 -/
 
 open Lean DH.Wire DH.Files
@@ -76,48 +80,29 @@ def takeSys : Nat → List Ev → List Ev
   | n + 1, .sys op :: es => .sys op :: takeSys n es
   | n, e :: es => e :: takeSys n es
 
-/-! parsing the bytes of a results file -/
+/-! the bytes of a results file: `DH.Files.abstract` (`Model/FilesText.lean`: the `csv.reader` state machine of
+`Model/Csv.lean`, then every record classified against the header record) -/
 
-def stripCR (s : String) : String :=
-  if s.endsWith "\r" then (s.dropEnd 1).toString else s
+def parseFile (sid : Nat) (t : String) : Content := abstract sid t.toList
 
-def cells (s : String) : List String := (stripCR s).splitOn ","
+def jExpect (j : Json) : Except String Expect := do
+  let cells ← jList (fun c => do
+    match ← jList jStr c with
+    | [a, b] => pure (a.toList, b.toList)
+    | _ => throw "cell = [column, text]") (← field j "cells")
+  return { id := ← jNat (← field j "id"), cells := cells }
 
-def parseRow (sid : Nat) (hf : List String) (hext : Bool) (jc : Nat) (complete : Bool)
-    (l : String) : Line :=
-  let f := cells l
-  let id? := (f[jc]?).bind String.toNat?
-  if f.contains "job_id" then .header (f.getLast? == some "pareto_efficient")
-  else match id? with
-    | none => .torn ⟨sid, 0⟩
-    | some id =>
-      if !complete then .torn ⟨sid, id⟩
-      else if f.length == hf.length then .row ⟨sid, id⟩ hext
-      else if hext && f.length + 1 == hf.length then .row ⟨sid, id⟩ false
-      else if !hext && f.length == hf.length + 1 then .row ⟨sid, id⟩ true
-      else .torn ⟨sid, id⟩
+def ofRecords (rs : List (List DH.Csv.Text)) : Json :=
+  Json.arr (rs.map (fun r => Json.arr (r.map (fun c => Json.str (String.ofList c))).toArray)).toArray
 
-def parseRows (sid : Nat) (hf : List String) (hext : Bool) (jc : Nat) (endsNl : Bool) :
-    List String → Content
+/-- ids of the expectations the records do not meet -/
+def badExpect (t : DH.Csv.Text) (exp : List Expect) : List Nat :=
+  match records t with
   | [] => []
-  | [l] => [parseRow sid hf hext jc endsNl l]
-  | l :: ls => parseRow sid hf hext jc true l :: parseRows sid hf hext jc endsNl ls
-
-def parseFile (sid : Nat) (t : String) : Content :=
-  let parts := t.splitOn "\n"
-  let endsNl := parts.getLast? == some ""
-  let lines := if endsNl then parts.dropLast else parts
-  match lines with
-  | [] => []
-  | h :: rest =>
-    let hf := cells h
-    match hf.idxOf? "job_id" with
-    | none => lines.map (fun _ => Line.torn ⟨sid, 0⟩)
-    | some jc =>
-      if rest.isEmpty && !endsNl then [.torn ⟨sid, 0⟩]
-      else
-        let hext := hf.getLast? == some "pareto_efficient"
-        .header hext :: parseRows sid hf hext jc endsNl rest
+  | hdr :: rows =>
+    match colIdx jobIdName hdr with
+    | none => []
+    | some jc => (exp.filter (fun e => !expectOk hdr jc rows e)).map (·.id)
 
 def ofJobs (js : List Job) : Json := Json.arr (js.map (fun j => Json.arr #[j.search, j.id])).toArray
 
@@ -152,19 +137,38 @@ def handle (j : Json) : Except String Json := do
     let sid ← jNat (← field j "sid")
     let done ← jList jJob (← field j "done")
     let dumped ← jList jJob (← field j "dumped")
-    let res : Option Content := match fieldD j "text" Json.null with
-      | .str t => some (parseFile sid t)
+    let txt : Option DH.Csv.Text := match fieldD j "text" Json.null with
+      | .str t => some t.toList
       | _ => none
+    let res : Option Content := txt.map (abstract sid)
+    let exp ← match fieldD j "expect" Json.null with
+      | .null => pure []
+      | e => jList jExpect e
+    let want := (fieldD j "want_records" (Json.bool false)).getBool?.toOption.getD false
     let rl : Json := match res with
       | none => Json.null
       | some c => match reload c with
         | .ok js => Json.mkObj [("ok", true), ("jobs", ofJobs js)]
         | .error e => Json.mkObj [("ok", false), ("err", errStr e)]
+    let recs := txt.map records
     return Json.mkObj [("ok", true), ("visible", visibleOk res done dumped),
       ("torn_last_only", match res with | none => false | some c => tornLastOnly c done dumped),
       ("wf", match res with | none => Json.null | some c => Json.bool (wellFormed c)),
       ("lines", match res with | none => Json.null | some c => ofContent c),
-      ("reload", rl)]
+      ("reload", rl),
+      ("bytes_ok", bytesOk sid txt done dumped exp),
+      ("cells_ok", match txt with | none => true | some t => cellsOk t exp),
+      ("bad_expect", match txt with
+        | none => Json.arr #[]
+        | some t => Json.arr ((badExpect t exp).map (fun n => Json.num (JsonNumber.fromNat n))).toArray),
+      ("ended", match txt with | none => Json.null | some t => Json.bool (endsBetweenRecords t)),
+      ("n_records", match recs with | none => Json.null | some r => Json.num (JsonNumber.fromNat r.length)),
+      ("rerender_equal", match txt, recs with
+        | some t, some r => Json.bool (DH.Csv.renderFile r == t)
+        | _, _ => Json.null),
+      ("records", match recs with
+        | some r => if want then ofRecords r else Json.null
+        | none => Json.null)]
   | _ => throw s!"unknown op {op}"
 
 def main : IO Unit := serveFn handle
